@@ -95,20 +95,42 @@ def has_content(enc: Any) -> Optional[bool]:
     return False
 
 
-def decode(enc: Any, textblock_cls) -> Any:
-    """Build the real Python content (with real TextBlock instances) from the encoding."""
+SHARING = {'decoded_with_shared_pieces': 0}
+
+
+def decode(enc: Any, textblock_cls, _share: Optional[dict] = None) -> Any:
+    """Build the real Python content (with real TextBlock instances) from the encoding.
+    For every other encoding (by its check sum) equal non-empty lists and dicts inside it are
+    ONE object used at several places - a separator row or a paragraph a caller defines once
+    and uses twice - instead of equal copies."""
+    if _share is None:
+        import json  # pylint: disable=import-outside-toplevel
+        import zlib  # pylint: disable=import-outside-toplevel
+        _share = {} if zlib.crc32(json.dumps(enc, sort_keys=True).encode()) % 2 else False
     if enc is None or isinstance(enc, (bool, int, float, str)):
         return enc
+    key = None
+    if _share is not False and isinstance(enc, (list, dict)) and enc and 'tb' not in enc:
+        import json  # pylint: disable=import-outside-toplevel
+        key = json.dumps(enc, sort_keys=True)
+        if key in _share:
+            SHARING['decoded_with_shared_pieces'] += 1
+            return _share[key]
     if isinstance(enc, list):
-        return [decode(x, textblock_cls) for x in enc]
-    if 'dict' in enc:
-        return {k: decode(v, textblock_cls) for k, v in enc['dict']}
-    if 'tb' in enc:
+        out: Any = [decode(x, textblock_cls, _share) for x in enc]
+    elif 'dict' in enc:
+        out = {k: decode(v, textblock_cls, _share) for k, v in enc['dict']}
+    elif 'tb' in enc:
         hdr = enc.get('header')
         if hdr is None:
-            return textblock_cls(decode(enc['tb'], textblock_cls))
-        return textblock_cls(decode(enc['tb'], textblock_cls), header=decode(hdr, textblock_cls))
-    raise TypeError(enc)
+            return textblock_cls(decode(enc['tb'], textblock_cls, _share))
+        return textblock_cls(decode(enc['tb'], textblock_cls, _share),
+                             header=decode(hdr, textblock_cls, _share))
+    else:
+        raise TypeError(enc)
+    if key is not None:
+        _share[key] = out
+    return out
 
 
 # ---------------------------------------------------------------------------------------------
@@ -141,7 +163,12 @@ def rand_content(rng: random.Random, depth: int = 3, nested_header: bool = False
     if kind == 'bool':
         return rng.random() < 0.5
     if kind == 'list':
-        return [rand_content(rng, depth - 1) for _ in range(rng.randint(0, 4))]
+        items = [rand_content(rng, depth - 1) for _ in range(rng.randint(0, 4))]
+        pieces = [x for x in items if isinstance(x, (list, dict)) and x and 'tb' not in x]
+        if pieces and rng.random() < 0.5:
+            # a piece used twice (decode() makes the two one object half of the time)
+            items.insert(rng.randint(0, len(items)), rng.choice(pieces))
+        return items
     if kind == 'dict':
         return {'dict': [[f'k{i}', rand_content(rng, depth - 1)]
                          for i in range(rng.randint(0, 3))]}
